@@ -1,6 +1,8 @@
 import IdpyVerif.Model.FileStore
 import IdpyVerif.Model.UrlEnc
 import IdpyVerif.Model.ImpExp
+import IdpyVerif.Model.HeapFlows
+import IdpyVerif.Gen.Flows
 namespace Idpy.Driver.FileStore
 open Idpy Idpy.Wire Idpy.FileStore
 
@@ -59,6 +61,28 @@ def ieLine (args : List String) : Option String :=
       let r := ImpExp.load (mk f) (ImpExp.dump exported (mk o))
       some (",".intercalate (attrs.map fun a => toString (r a)))
     | _, _ => none
+  | _ => none
+
+-- `heap usage <client has rules 0/1> <rule has supports_minting 0/1>`: run the usage-rules flow AS THE CODE HAS IT on a heap of that
+-- shape and say whether a cell of the client record changed
+open Idpy.Heap in
+def heapLine (args : List String) : Option String :=
+  match args with
+  | ["usage", hasRules, hasSm] =>
+    let h : Heap :=
+      { next := 5,
+        store := fun a =>
+          if a = 0 then some { isList := false, items := [(kAC, .ref 1)] }
+          else if a = 1 then some { isList := false, items := [(7, .atom 300)] }
+          else if a = 2 then some { isList := false, items := if hasRules = "1" then [(kAC, .ref 3)] else [] }
+          else if a = 3 then some { isList := false, items := if hasSm = "1" then [(kSM, .ref 4)] else [(7, .atom 600)] }
+          else if a = 4 then some { isList := true, items := [(0, .atom 8)] }
+          else none }
+    let h' := usageFlow Gen.usageRulesCopiesClient h (.ref 0) (.ref 2)
+    let changed := [0, 1, 2, 3, 4].filter fun a => h'.store a != h.store a
+    some (if changed.isEmpty then "unchanged" else "changed")
+  | ["settings"] =>
+    some (if Gen.revocationSelfWrites.isEmpty && !Gen.userinfoWritesConfig && Gen.findTokenSchemaIsLocal then "unchanged" else "changed")
   | _ => none
 
 end Idpy.Driver.FileStore
